@@ -136,6 +136,9 @@ def gen_plan(rng, index, tier):
     if behind and not coupling and rng.random() < 0.4:
         c = rng.randrange(n)
         steps.append(_mk_step(0, rng.choice(behind)["name"], ("EveryNode", c, rng.randrange(bs + 1), None), "dupwrite"))
+    if rng.random() < 0.12:
+        # a halt request at BOC: the run stops there, end-of-life still runs (and writes)
+        steps.append(_mk_step(0, rng.choice(actors)["name"], ("BOC", rng.randrange(n), None, None), "halt"))
     if rng.random() < 0.3:
         steps.append(_mk_step(0, rng.choice(actors)["name"], rng.choice(pts), "clockjump", dt=rng.choice([-7200.0, 3600.0, 1e6])))
     # single failure of life 0, biased towards the hooks next to the database interface and shuffles
@@ -634,11 +637,15 @@ def execute(plan):
             sig.append(("abort", abort0["hook"], stack_names.index(abort0["actor"]) > stack_names.index("database"), in_window))
         if err is None:
             hist = schedule.expand_history(cfg["settings"])
-            want_plain = {f"c{c:02d}n{n:02d}" for c, n in schedule.node_numbering(hist)}
-            last = max(want_plain)
+            halts = sorted(s["cycle"] for s in plan["steps"] if s["op"] == "halt" and s.get("life", 0) == 0 and d.fired.get("halt"))
+            hc = halts[0] if halts else None
+            want_plain = {f"c{c:02d}n{n:02d}" for c, n in schedule.node_numbering(hist) if hc is None or c < hc}
+            eol = (max(want_plain) if hc is None else f"c{hc:02d}n00") + "EOL"
             have = set(writes0)
-            if not (want_plain | {last + "EOL"}) <= have:
-                raise OracleFailure("C06.complete", f"completed run acknowledged {sorted(have)}; every node plus EOL would be {sorted(want_plain | {last + 'EOL'})}", {"what": "nodes"})
+            if hc is not None:
+                probes["halted_run"] += 1
+            if not (want_plain | {eol}) <= have:
+                raise OracleFailure("C06.complete", f"completed run acknowledged {sorted(have)}; every visited node plus EOL would be {sorted(want_plain | {eol})}", {"what": "nodes", "halted": hc is not None})
             check_file(path, writes0, "life0-completed", True, cs, rd.get("loads", 1), rd.get("pick", 0))
         elif in_window:
             errname = [nm for nm in writes0 if nm.endswith("error")]
